@@ -32,10 +32,20 @@ Fixpoint lookup (k : bytes) (m : list (bytes * N)) : option N :=
   | (k', c) :: m' => if bytes_eqb k k' then Some c else lookup k m'
   end.
 
-(* getConn, existing-connection part: by routed ID first, else by source-address string
-   (None = the accept path for a new remote address) *)
-Definition get_conn (conns : list (bytes * N)) (src : bytes) (d : dgram) : option N :=
-  match route d with
+(* getConn, existing-connection part, given what the datagram router returned: by routed ID first,
+   else by source-address string (None = the accept path for a new remote address) *)
+Definition get_conn_id (conns : list (bytes * N)) (src : bytes) (rid : option bytes) : option N :=
+  match rid with
   | Some id => match lookup id conns with Some c => Some c | None => lookup src conns end
   | None => lookup src conns
+  end.
+
+Definition get_conn (conns : list (bytes * N)) (src : bytes) (d : dgram) : option N :=
+  get_conn_id conns src (route d).
+
+(* the rejected alternative "source address first, router only for unknown addresses" *)
+Definition get_conn_addr_first (conns : list (bytes * N)) (src : bytes) (rid : option bytes) : option N :=
+  match lookup src conns with
+  | Some c => Some c
+  | None => match rid with Some id => lookup id conns | None => None end
   end.
